@@ -37,6 +37,7 @@ type binConn struct {
 }
 
 type poolBinComp struct {
+	refused map[string]bool
 	proc  *exec.Cmd
 	addr  string
 	conns map[string]*binConn
@@ -50,12 +51,19 @@ func (c *poolBinComp) Close() {
 	c.conns = nil
 	if c.proc != nil {
 		c.proc.Process.Kill()
-		c.proc.Wait()
+		time.Sleep(10 * time.Millisecond)
 		c.proc = nil
 	}
 }
 
 func (c *poolBinComp) Reset(opts map[string]string, base int64) {
+	c.Close()
+	c.startBinary(nil)
+	c.nonce = time.Now().UnixNano()
+}
+
+// startBinary (re)starts `vipnode pool --store=memory` with extra flags; false if the process exits instead of serving
+func (c *poolBinComp) startBinary(flags []string) bool {
 	c.Close()
 	bin := os.Getenv("VERIF_POOL_BINARY")
 	if bin == "" {
@@ -67,20 +75,29 @@ func (c *poolBinComp) Reset(opts map[string]string, base int64) {
 	}
 	c.addr = l.Addr().String()
 	l.Close()
-	c.proc = exec.Command(bin, "pool", "--store=memory", "--bind", c.addr)
+	c.proc = exec.Command(bin, append([]string{"pool", "--store=memory", "--bind", c.addr}, flags...)...)
 	c.proc.Dir = os.Getenv("VERIF_SCRATCH")
 	if err := c.proc.Start(); err != nil {
 		fatal(err)
 	}
+	exited := make(chan struct{})
+	proc := c.proc
+	go func() { proc.Wait(); close(exited) }()
+	c.conns = map[string]*binConn{}
+	c.refused = map[string]bool{}
 	for i := 0; i < 200; i++ {
 		if cn, err := net.DialTimeout("tcp", c.addr, 100*time.Millisecond); err == nil {
 			cn.Close()
-			break
+			return true
 		}
-		time.Sleep(20 * time.Millisecond)
+		select {
+		case <-exited:
+			c.proc = nil
+			return false
+		case <-time.After(20 * time.Millisecond):
+		}
 	}
-	c.conns = map[string]*binConn{}
-	c.nonce = time.Now().UnixNano()
+	return false
 }
 
 func (c *poolBinComp) nextNonce() int64 { c.nonce += 1000; return c.nonce }
@@ -147,6 +164,9 @@ func (c *poolBinComp) post(body []byte) (map[string]json.RawMessage, error) {
 }
 
 func (c *poolBinComp) Exec(t []string) (extra []string, out string, eff bool) {
+	if c.proc == nil && t[0] != "start" {
+		return nil, "err not-running", false
+	}
 	switch t[0] {
 	case "hostconn":
 		// hostconn <conn> <host>: the host registers over a (new or existing) WebSocket connection
@@ -172,6 +192,57 @@ func (c *poolBinComp) Exec(t []string) (extra []string, out string, eff bool) {
 		case <-time.After(3 * time.Second):
 			return nil, "err timeout", false
 		}
+	case "start":
+		// start min=<ether|off> price=<ether> max=<n>: the operator's flags (`_` stands for a space)
+		get := func(k string) string { v, _ := FindStr(k, t); return strings.Replace(v, "_", " ", -1) }
+		flags := []string{"--contract.min-balance=" + get("min"), "--contract.price=" + get("price"), "--max-request-hosts=" + get("max")}
+		if !c.startBinary(flags) {
+			return nil, "err start-failed", false
+		}
+		return nil, "ok", true
+	case "client", "kalive":
+		// a light client (n6 / n7) registers / sends a keep-alive without peers over HTTP
+		if c.proc == nil {
+			return nil, "err not-running", false
+		}
+		who := identByName[t[1]]
+		if t[0] == "kalive" && c.refused[t[1]] {
+			// a client refused at registration has no business sending keep-alives (whether the pool would bill one
+			// depends on the wall clock)
+			return nil, "skipped-refused", false
+		}
+		var body []byte
+		if t[0] == "client" {
+			body = c.signed(who, 5, "vipnode_connect", pool.ConnectRequest{NodeInfo: ethnode.UserAgent{Kind: ethnode.Geth}})
+		} else {
+			time.Sleep(3 * time.Millisecond)
+			body = c.signed(who, 6, "vipnode_update", pool.UpdateRequest{BlockNumber: 1, PeerInfo: []ethnode.PeerInfo{}})
+		}
+		m, err := c.post(body)
+		if err != nil {
+			return nil, "err transport", false
+		}
+		if e := m["error"]; e != nil {
+			msg := string(e)
+			if i := strings.Index(msg, "Current balance ("); i >= 0 {
+				var cur, min string
+				fmt.Sscanf(msg[i:], "Current balance (%s", &cur)
+				cur = strings.TrimRight(cur, ")")
+				if j := strings.Index(msg, "required minimum ("); j >= 0 {
+					min = msg[j+len("required minimum ("):]
+					min = min[:strings.IndexAny(min, ")")]
+				}
+				if t[0] == "client" {
+					c.refused[t[1]] = true
+				}
+				return nil, "err LowBalance " + cur + " " + min, false
+			}
+			if strings.Contains(msg, "Invalid interval settings") {
+				return nil, "err InvalidSettings", false
+			}
+			return nil, "err " + strings.Replace(canon(msg), " ", "_", -1), false
+		}
+		return nil, "ok", true
 	case "hostmode":
 		// hostmode <conn> ack|refuse
 		if bc := c.conns[t[1]]; bc != nil {
@@ -220,9 +291,13 @@ func (c *poolBinComp) Exec(t []string) (extra []string, out string, eff bool) {
 			bc.mu.Unlock()
 		}
 		if m, err := c.post(c.signed(who, 2, "vipnode_connect", pool.ConnectRequest{NodeInfo: ethnode.UserAgent{Kind: ethnode.Geth}})); err != nil || m["error"] != nil {
-			return nil, "err client-connect " + strings.Replace(canon(string(m["error"])), " ", "_", -1), false
+			return nil, "err client-refused", false
 		}
-		m, err := c.post(c.signed(who, 3, "vipnode_peer", pool.PeerRequest{Num: 8}))
+		num := 8
+		if v, ok := FindStr("num", t); ok {
+			fmt.Sscan(v, &num)
+		}
+		m, err := c.post(c.signed(who, 3, "vipnode_peer", pool.PeerRequest{Num: num}))
 		if err != nil {
 			return nil, "err transport", false
 		}
@@ -254,12 +329,38 @@ func (c *poolBinComp) Exec(t []string) (extra []string, out string, eff bool) {
 			hosts = append(hosts, canon(string(p.ID)))
 		}
 		sort.Strings(hosts)
+		if _, counted := FindStr("num", t); counted {
+			// with a request count the pool picks among the hosts: which ones is its choice, how many is prescribed
+			return nil, fmt.Sprintf("ok nhosts=%d nwl=%d", len(hosts), len(wl)), true
+		}
 		return nil, "ok hosts=" + strings.Join(hosts, ",") + " wl=" + strings.Join(wl, ","), true
 	}
 	return nil, "bad-op", false
 }
 
+// genConfig: the operator's flags decide who is admitted, whether keep-alives are billable and how many hosts a request
+// may name - through pool.go's flag parsing and wiring
+func (c *poolBinComp) genConfig(r *rand.Rand, idx int, emit func(string)) {
+	mins := []string{"off", "0", "1", "1_wei", "5_gwei", "-1", "-1_wei", "0.5_kwei", "0.000000001_gwei", "100", "2_ether", "1.5_parsec", "1.", "wei"}
+	prices := []string{"100_gwei", "1000", "1_wei", "250_wei", "0", "0_wei", "0.0000001_gwei", "3_kwei", "1_babbage", "-5", "12_furlongs"}
+	max := r.Intn(4)
+	emit(fmt.Sprintf("start min=%s price=%s max=%d", mins[(idx/2)%len(mins)], prices[(idx/2+idx%2*5)%len(prices)], max))
+	nh := 1 + r.Intn(3)
+	for i := 0; i < nh; i++ {
+		emit(fmt.Sprintf("hostconn c%d n%d", i, i))
+	}
+	emit("client n6")
+	emit("kalive n6")
+	emit(fmt.Sprintf("peer num=%d", []int{1, 2, 3, 8}[r.Intn(4)]))
+	emit("client n7")
+	emit("kalive n7")
+}
+
 func (c *poolBinComp) Gen(r *rand.Rand, idx int, emit func(string)) {
+	if idx%2 == 1 {
+		c.genConfig(r, idx, emit)
+		return
+	}
 	hows := []string{"tcp", "frame1000", "frame1001", "frame1002", "frame1009", "frame1011", "frame4000", "garbage"}
 	nh := 1 + r.Intn(3)
 	for i := 0; i < nh; i++ {
